@@ -391,7 +391,7 @@ func (st *hnState) summaryHN(fn *ssa.Function, idx int) bool {
 	}
 	for _, b := range fn.Blocks {
 		for _, in := range b.Instrs {
-			if ret, ok := in.(*ssa.Return); ok && idx < len(ret.Results) {
+			if ret, ok := in.(*ssa.Return); ok && isReturn(in) && idx < len(ret.Results) {
 				if !st.hn(unspill(ret, idx), b, 1) {
 					return false
 				}
